@@ -23,6 +23,10 @@ struct Sym {
     ecu: Option<&'static str>,
     /// (mstp, mtin, verbose, app, ctx)
     ext: Option<(u8, u8, bool, &'static str, &'static str)>,
+    /// 0: ordinary message.  k in 1..=4 (only without extended header): a message without
+    /// timestamp whose payload has k-1 bytes - shorter than a message id, down to the bare
+    /// 4-byte standard header; the collector sees headers only, so these are messages to it
+    short: u8,
 }
 
 fn types12() -> Vec<(u8, u8)> {
@@ -31,12 +35,14 @@ fn types12() -> Vec<(u8, u8)> {
 fn full_alphabet() -> Vec<Sym> {
     let mut v = vec![];
     for ecu in [None, Some("E1"), Some("E2")] {
-        v.push(Sym { ecu, ext: None });
+        v.push(Sym { ecu, ext: None, short: 0 });
+        v.push(Sym { ecu, ext: None, short: 1 });
+        v.push(Sym { ecu, ext: None, short: 3 });
         for app in ["A1", "A2"] {
             for ctx in ["C1", "C2"] {
                 for (t, s) in types12() {
                     for verbose in [false, true] {
-                        v.push(Sym { ecu, ext: Some((t, s, verbose, app, ctx)) });
+                        v.push(Sym { ecu, ext: Some((t, s, verbose, app, ctx)), short: 0 });
                     }
                 }
             }
@@ -47,38 +53,52 @@ fn full_alphabet() -> Vec<Sym> {
 /// collision-forcing subset: same ids with different buckets, app id == ctx id text, NONE vs "NONE"
 fn subset12() -> Vec<Sym> {
     vec![
-        Sym { ecu: None, ext: None },
-        Sym { ecu: Some("E1"), ext: None },
-        Sym { ecu: Some("NONE"), ext: Some((0, 4, true, "A1", "C1")) },
-        Sym { ecu: None, ext: Some((0, 4, true, "A1", "C1")) },
-        Sym { ecu: Some("E1"), ext: Some((0, 1, true, "A1", "C1")) },
-        Sym { ecu: Some("E1"), ext: Some((0, 0, true, "A1", "C2")) },
-        Sym { ecu: Some("E2"), ext: Some((0, 9, false, "A2", "C1")) },
-        Sym { ecu: Some("E1"), ext: Some((MSTP_CONTROL, 1, false, "A1", "A1")) },
-        Sym { ecu: Some("E2"), ext: Some((MSTP_NW_TRACE, 2, true, "C1", "A1")) },
-        Sym { ecu: Some("E1"), ext: Some((0, 6, false, "A2", "C2")) },
-        Sym { ecu: Some("E2"), ext: Some((5, 3, true, "A1", "C1")) },
-        Sym { ecu: Some("E1"), ext: Some((0, 3, true, "", "")) },
+        Sym { ecu: None, ext: None, short: 0 },
+        Sym { ecu: Some("E1"), ext: None, short: 0 },
+        Sym { ecu: Some("NONE"), ext: Some((0, 4, true, "A1", "C1")), short: 0 },
+        Sym { ecu: None, ext: Some((0, 4, true, "A1", "C1")), short: 0 },
+        Sym { ecu: Some("E1"), ext: Some((0, 1, true, "A1", "C1")), short: 0 },
+        Sym { ecu: Some("E1"), ext: Some((0, 0, true, "A1", "C2")), short: 0 },
+        Sym { ecu: Some("E2"), ext: Some((0, 9, false, "A2", "C1")), short: 0 },
+        Sym { ecu: Some("E1"), ext: Some((MSTP_CONTROL, 1, false, "A1", "A1")), short: 0 },
+        Sym { ecu: Some("E2"), ext: Some((MSTP_NW_TRACE, 2, true, "C1", "A1")), short: 0 },
+        Sym { ecu: Some("E1"), ext: Some((0, 6, false, "A2", "C2")), short: 0 },
+        Sym { ecu: Some("E2"), ext: Some((5, 3, true, "A1", "C1")), short: 0 },
+        Sym { ecu: Some("E1"), ext: Some((0, 3, true, "", "")), short: 0 },
+        Sym { ecu: None, ext: None, short: 1 },
+        Sym { ecu: Some("E1"), ext: None, short: 4 },
     ]
 }
 fn subset4() -> Vec<Sym> {
     vec![
-        Sym { ecu: Some("E1"), ext: Some((0, 4, true, "A1", "C1")) },
-        Sym { ecu: Some("E1"), ext: Some((0, 2, true, "A2", "C1")) },
-        Sym { ecu: None, ext: None },
-        Sym { ecu: Some("E2"), ext: Some((MSTP_APP_TRACE, 1, false, "A1", "C2")) },
+        Sym { ecu: Some("E1"), ext: Some((0, 4, true, "A1", "C1")), short: 0 },
+        Sym { ecu: Some("E1"), ext: Some((0, 2, true, "A2", "C1")), short: 0 },
+        Sym { ecu: None, ext: None, short: 0 },
+        Sym { ecu: Some("E2"), ext: Some((MSTP_APP_TRACE, 1, false, "A1", "C2")), short: 0 },
     ]
 }
 
 fn build(sym: &Sym, storage: bool, counter: u8) -> RefMsg {
-    let flags = if sym.ecu.is_some() { 0x04 } else { 0 } | 0x10;
+    let flags = if sym.ecu.is_some() { 0x04 } else { 0 } | if sym.short > 0 { 0 } else { 0x10 };
     let e = sym.ext.map(|(t, s, _, a, c)| ext(t, s, a, c));
     let verbose = sym.ext.map(|x| x.2).unwrap_or(false);
-    let p = payload_for(verbose, e.as_ref().map(|e| e.mstp), counter as usize);
+    let p = if sym.short > 0 { RefPayload::NonVerbose(0x0403_0201, vec![]) } else { payload_for(verbose, e.as_ref().map(|e| e.mstp), counter as usize) };
     let mut m = msg_with(flags, 1, e, p, if storage { Some(storage_hdr(counter)) } else { None });
     m.ecu = sym.ecu.map(|s| s.to_string());
     m.mcnt = counter;
     m
+}
+/// a `short` symbol: the encoded message loses the last 5-k bytes of its 4-byte message id and LEN is adjusted
+fn shorten(mut enc: Vec<u8>, sym: &Sym, storage: bool) -> Vec<u8> {
+    if sym.short > 0 {
+        let cut = 5 - sym.short as usize;
+        let n = enc.len() - cut;
+        enc.truncate(n);
+        let at = if storage { 16 } else { 0 };
+        let len = (n - at) as u16;
+        enc[at + 2..at + 4].copy_from_slice(&len.to_be_bytes());
+    }
+    enc
 }
 fn storage_hdr(counter: u8) -> RefStorage {
     storage(1000 + counter as u32, 7, "STO")
@@ -186,7 +206,7 @@ fn collect(bytes: &[u8], storage: bool) -> Result<StatisticInfo, String> {
 
 fn judge(stream: &[Sym], storage: bool, max_bfs_parts: usize, loc: &mut Local) {
     let msgs: Vec<RefMsg> = stream.iter().enumerate().map(|(i, s)| build(s, storage, i as u8)).collect();
-    let encs: Vec<Vec<u8>> = msgs.iter().map(|m| encode(m).0).collect();
+    let encs: Vec<Vec<u8>> = msgs.iter().zip(stream.iter()).map(|(m, s)| shorten(encode(m).0, s, storage)).collect();
     let whole: Vec<u8> = encs.concat();
     let desc = || format!("{} message(s) {:?}{}", stream.len(), stream.iter().map(|s| format!("{}/{}", s.ecu.unwrap_or("-"), match s.ext { None => "noext".to_string(), Some((t, l, v, a, c)) => format!("t{}.{}{}:{}:{}", t, l, if v { "v" } else { "n" }, a, c) })).collect::<Vec<_>>(), if storage { ", storage headers" } else { "" });
     let details = || json!({"stream_hex": hex_short(&whole), "stream": desc()});
@@ -207,9 +227,14 @@ fn judge(stream: &[Sym], storage: bool, max_bfs_parts: usize, loc: &mut Local) {
             return loc.violation("collector visits a wrong number of messages", format!("{} messages in the stream but the collector was called {} times: {}", msgs.len(), rec.seen.len(), desc()), details());
         }
         for (i, (s, m)) in rec.seen.iter().zip(msgs.iter()).enumerate() {
-            let cm = to_crate(m);
+            let mut cm = to_crate(m);
             let mut payload = vec![];
             encode_payload(&m.payload, m.big, &mut payload, &mut Sites::default());
+            if stream[i].short > 0 {
+                let cut = 5 - stream[i].short as usize;
+                payload.truncate(payload.len() - cut);
+                cm.header.payload_length -= cut as u16;
+            }
             let expect_level = match &m.ext {
                 Some(e) if e.mstp == 0 => match message_type_of(0, e.mtin) {
                     dlt_core::dlt::MessageType::Log(l) => Some(l),
@@ -363,7 +388,7 @@ fn judge(stream: &[Sym], storage: bool, max_bfs_parts: usize, loc: &mut Local) {
 /// Long streams: tally of the whole, and for several partitions into contiguous parts the left
 /// fold, the right fold and a balanced pairwise (tree) merge of the per-part results.
 fn judge_long(stream: &[Sym], storage: bool, what: &str, loc: &mut Local) {
-    let encs: Vec<Vec<u8>> = stream.iter().enumerate().map(|(i, s)| encode(&build(s, storage, i as u8)).0).collect();
+    let encs: Vec<Vec<u8>> = stream.iter().enumerate().map(|(i, s)| shorten(encode(&build(s, storage, i as u8)).0, s, storage)).collect();
     let whole: Vec<u8> = encs.concat();
     let n = stream.len();
     let details = || json!({"stream": what, "messages": n, "storage": storage});
@@ -473,7 +498,7 @@ pub fn run(ctx: &Ctx) {
             let apps: Vec<&'static str> = (0..400).map(|i| leak(format!("a{:03}", i))).collect();
             let ctxs: Vec<&'static str> = (0..500).map(|i| leak(format!("c{:03}", i))).collect();
             let t = types12();
-            (0..6000usize).map(|i| Sym { ecu: if i % 11 == 0 { None } else { Some(ecus[(i * 7) % 300]) }, ext: if i % 13 == 0 { None } else { let (mt, mi) = t[(i * 5) % 12]; Some((mt, mi, i % 3 != 0, apps[(i * 3) % 400], ctxs[(i * 11) % 500])) } }).collect()
+            (0..6000usize).map(|i| Sym { ecu: if i % 11 == 0 { None } else { Some(ecus[(i * 7) % 300]) }, ext: if i % 13 == 0 { None } else { let (mt, mi) = t[(i * 5) % 12]; Some((mt, mi, i % 3 != 0, apps[(i * 3) % 400], ctxs[(i * 11) % 500])) }, short: 0 }).collect()
         };
         let lens: Vec<usize> = match ctx.tier {
             Tier::Quick => vec![255, 256, 257, 1000, 66_000],
@@ -527,7 +552,7 @@ pub fn run(ctx: &Ctx) {
             let stream: Vec<Sym> = (0..n)
                 .map(|j| {
                     let (mt, mi) = t[(j * 5) % 12];
-                    Sym { ecu: if j % 6 == 5 { None } else { Some(ids[j % 5]) }, ext: Some((mt, mi, j % 3 != 0, ids[100 + j % 37], ids[if big { j } else { j % nids }])) }
+                    Sym { ecu: if j % 6 == 5 { None } else { Some(ids[j % 5]) }, ext: Some((mt, mi, j % 3 != 0, ids[100 + j % 37], ids[if big { j } else { j % nids }])), short: 0 }
                 })
                 .collect();
             judge_long(&stream, storage, &format!("{} messages over {} distinct context ids", n, if big { n } else { nids }), loc);
@@ -600,7 +625,7 @@ pub fn run(ctx: &Ctx) {
                 let db = leak(format!("{}B", d));
                 let adb = leak(format!("A{}B", d));
                 // ids are at most 4 bytes: 'é' makes A+d+B 4 bytes, still fine
-                vec![Sym { ecu: Some("E1"), ext: Some((0, 4, true, ad, "B")) }, Sym { ecu: Some("E1"), ext: Some((0, 2, true, "A", db)) }, Sym { ecu: Some("E1"), ext: Some((0, 4, false, adb, "")) }, Sym { ecu: None, ext: Some((MSTP_CONTROL, 1, false, "", adb)) }]
+                vec![Sym { ecu: Some("E1"), ext: Some((0, 4, true, ad, "B")), short: 0 }, Sym { ecu: Some("E1"), ext: Some((0, 2, true, "A", db)), short: 0 }, Sym { ecu: Some("E1"), ext: Some((0, 4, false, adb, "")), short: 0 }, Sym { ecu: None, ext: Some((MSTP_CONTROL, 1, false, "", adb)), short: 0 }]
             };
             let len = if k < 4 { 1 } else if k < 20 { k -= 4; 2 } else { k -= 20; 3 };
             let mut stream = vec![];
